@@ -17,7 +17,7 @@ RULE = (
     "distinct by construction; Hypothesis cases are deduplicated by hash."
 )
 ASSUMPTIONS = [
-    "a token is expressible by the quoting scheme iff no backslash in it is followed by a quote or ends the token "
+    "a token is expressible by the quoting scheme iff, read left to right in backslash+character pairs, no pair has a quote as second character or is cut short by the end of the token "
     "(the scanner collapses backslash-quote to the quote unconditionally)",
     "termination: a 5 s alarm only triggers a deterministic re-run under a 300000 line-event budget",
 ]
@@ -88,9 +88,17 @@ def quote(token, style):
 
 
 def expressible(token):
-    for i, ch in enumerate(token):
-        if ch == "\\" and (i + 1 == len(token) or token[i + 1] in "'\""):
-            return False
+    """The scanner reads a backslash together with the character after it (a pair stands for itself, except that
+    backslash-quote collapses to the quote). Reading the token left to right in such pairs, it is expressible iff
+    no pair is cut short by the end of the token or has a quote as its second character."""
+    i = 0
+    while i < len(token):
+        if token[i] == "\\":
+            if i + 1 == len(token) or token[i + 1] in "'\"":
+                return False
+            i += 2
+        else:
+            i += 1
     return True
 
 
@@ -124,6 +132,8 @@ def check_roundtrip(ctx, case):
         cls.append("rt:escaped-quote")
     if any("\\" in t for t in tokens):
         cls.append("rt:backslash")
+    if any(t.endswith("\\") or "\\'" in t or '\\"' in t for t in tokens):
+        cls.append("rt:backslash-pair-before-quote-or-end")
     ctx.case("roundtrip", case, nt, cls)
     try:
         raw = run_guarded(_tokenize, (line,))
@@ -145,11 +155,21 @@ TOKEN_CHARS = ["a", "b", "Z", "-", "=", "é", "中", "'", '"', "\\", " ", "\t", 
 def token_st(draw):
     chars = draw(st.lists(st.sampled_from(TOKEN_CHARS), min_size=0, max_size=5))
     # constructive repair: a backslash followed by a quote / ending the token gets a letter after it
+    # (pairs are read left to right, so an even run of backslashes before a quote or the end is kept as it is)
     out = []
-    for i, c in enumerate(chars):
-        out.append(c)
-        if c == "\\" and (i + 1 == len(chars) or chars[i + 1] in "'\""):
-            out.append("n")
+    i = 0
+    while i < len(chars):
+        c = chars[i]
+        if c == "\\":
+            if i + 1 < len(chars) and chars[i + 1] not in "'\"":
+                out += [c, chars[i + 1]]
+                i += 2
+            else:
+                out += [c, "n"]
+                i += 1
+        else:
+            out.append(c)
+            i += 1
     return "".join(out)
 
 
